@@ -4,7 +4,7 @@
 (* replayed into the real combine1fiber.                                                        *)
 (*                                                                                              *)
 (* Families                                                                                     *)
-(*   "single"  every good-pattern on N pixels x the 14 output grids of Grids(N)                 *)
+(*   "single"  every good-pattern on N pixels x the 16 output grids of Grids(N)                 *)
 (*   "infl"    every pattern on NI pixels, each pixel inflated to a block of B real pixels      *)
 (*             (realistic spline groups), x the grids InflGrids of Grids(NI*B)                  *)
 (*   "pair"    every pair of patterns on NP pixels, second exposure offset by 0, 1/2, 1/3,      *)
@@ -37,7 +37,8 @@ Inflate(good, b) == [r \in 1 .. (Len(good) * b) |-> good[((r - 1) \div b) + 1]]
 NGood(good) == Cardinality({k \in DOMAIN good : good[k]})
 
 (* inverse variances used for the interpolation law: a fixed cycle of small rationals *)
-IvCycle == << <<1, 1>>, <<1, 2>>, <<2, 1>>, <<3, 4>>, <<3, 2>> >>
+(* (integral, so that the same values can also be handed over with an integer dtype) *)
+IvCycle == << <<4, 1>>, <<2, 1>>, <<8, 1>>, <<3, 1>>, <<6, 1>> >>
 IvOf(good) == [k \in DOMAIN good |-> IF good[k] THEN IvCycle[((k - 1) % 5) + 1] ELSE Zero]
 
 (* ---------- output grids for an input of n pixels ---------- *)
@@ -56,8 +57,10 @@ Grids(n) == <<
   Grid(R(n + 2, 1), One, 5),                          \* 11 disjoint
   Grid(R(-2, 3), R(3, 2), n),                         \* 12 coarser x3/2, beyond both ends
   Grid(R(n \div 2, 1), One, 1),                       \* 13 one output pixel on a sample
-  Grid(R(2 * (n \div 2) + 1, 2), One, 1) >>           \* 14 one output pixel half-way
-NGrids == 14
+  Grid(R(2 * (n \div 2) + 1, 2), One, 1),            \* 14 one output pixel half-way
+  Grid(R(1, 1000000), One, n),                        \* 15 shifted by 1e-6 pixel: just outside the function's own
+  Grid(R(-1, 1000000), One, n) >>                     \* 16   coincidence tolerance (float32 eps = 1.2e-7 pixel)
+NGrids == 16
 InflGrids == {1, 2, 6, 8, 10, 12}
 PairGrids == {1, 2, 6, 8}
 (* second exposure of a pair: offset sh, and cut pixels shorter than the first *)
